@@ -45,3 +45,7 @@ CHECKS["C20"] = dict(level="exploration", ref="DESIGN.md section 5 C20",
    technique="property-based testing over generated asset directories (native and in-memory) against an own transcription of the documented lookup rules (validity predicate: the answer must lie in the allowed set)",
    text="For every asset kind: named file found case-insensitively (also in sub-directories) wins, else any entry matching the documented pattern, else None; the answer exists, is normalised and is stable when asked again; pack banner by extension priority inside, then beside the pack. Which of several matches is returned is not claimed.",
    note="Trusted: own transcription of the patterns; DISC/DISCIMAGE lookup by name is excluded as the property states.")
+CHECKS["C01"] = dict(level="exploration", ref="DESIGN.md section 5 C01, 4.1, 4.2",
+   technique="model-based stateful property testing (Hypothesis RuleBasedStateMachine + generated edit histories against a dictionary/list model) with a serialize/parse round-trip oracle and a structural reading by the trusted tokenizer",
+   text="Edit histories (set/delete by key and attribute, chart list edits, field and extradata edits) are applied to a real SM simfile and to a model; after every step of the state machine, and at the end of every generated history, str() must be accepted by the strict parser, parse back to the model's items and charts (None values, order, extra components), re-serialize identically, be detected as SM, hold one NOTES parameter per chart with the six fields in order and write ATTACKS/DISPLAYBPM as colon-delimited components. Sampled; msdparser's escaping gap excluded by construction and demonstrated by three known-finding probes.",
+   note="Trusted: msdparser.parse_msd as tokenizer, the model in vf/simmodel.py, Hypothesis.")
